@@ -38,6 +38,7 @@ var c05Envs = []map[string]int64{
 	{"a": -8, "b": 3, "c": 1, "d": -2, "e": 9, "p": 0, "q": 1, "r": 1, "s": 0, "t": 0},
 	{"a": 1, "b": 2, "c": 3, "d": 4, "e": 5, "p": 0, "q": 0, "r": 1, "s": 1, "t": 0},
 	{"a": 100, "b": 0, "c": -1, "d": 31, "e": 2, "p": 1, "q": 1, "r": 0, "s": 0, "t": 1},
+	{"a": 2147483647, "b": -2147483648, "c": 2147483647, "d": 1, "e": -1, "p": 1, "q": 0, "r": 0, "s": 1, "t": 1},
 }
 
 func c05VM(env map[string]int64) *goat.VM {
@@ -185,12 +186,14 @@ func c05Rand(r *rand.Rand, ty string, ops int, ni, nb *int) *c05Tree {
 			t.Op = c05IntOps[r.Intn(len(c05IntOps))]
 			t.L = c05Rand(r, "int", lops, ni, nb)
 			t.R = c05Rand(r, "int", rops, ni, nb)
+			c05MaybeLiteral(r, t)
 		} else {
 			switch r.Intn(3) {
 			case 0:
 				t.Op = c05CmpOps[r.Intn(len(c05CmpOps))]
 				t.L = c05Rand(r, "int", lops, ni, nb)
 				t.R = c05Rand(r, "int", rops, ni, nb)
+				c05MaybeLiteral(r, t)
 			case 1:
 				t.Op = []string{"&&", "||"}[r.Intn(2)]
 				t.L = c05Rand(r, "bool", lops, ni, nb)
@@ -527,4 +530,17 @@ func c05Calibrate(c *Ctx, recs []exprRec) {
 			}
 		}
 	}
+}
+
+// c05MaybeLiteral: every fourth time the right operand of an integer operator or comparison, when it is a plain
+// variable and the left operand is not a literal, is the literal 1 or 2 (x < y + 1, a - 2 * b): constants stand
+// where variables stand; no expression becomes a constant expression
+func c05MaybeLiteral(r *rand.Rand, t *c05Tree) {
+	if t.R == nil || t.R.Op != "" || len(t.R.Un) > 0 || t.Op == "<<" || t.Op == ">>" || r.Intn(4) != 0 {
+		return
+	}
+	if t.L.Op == "" && (t.L.Name == "1" || t.L.Name == "2") {
+		return
+	}
+	t.R.Name = []string{"1", "2"}[r.Intn(2)]
 }
